@@ -135,11 +135,13 @@ def random_scn(rng):
         spn = rng.random() < 0.08
         if names and rng.random() < 0.25:      # override of an earlier header, other capitalisation
             name, txt = rng.choice(names)
-            name = [c ^ 32 if (65 <= c <= 90 or 97 <= c <= 122) and rng.random() < 0.5 else c for c in name]
+            if rng.random() < 0.5:             # the very same spelling again, or another capitalisation
+                name = [c ^ 32 if (65 <= c <= 90 or 97 <= c <= 122) and rng.random() < 0.5 else c for c in name]
+            else:
+                name = list(name)
         else:
             name, txt = gen_name(rng, spn)
-            if not spn:
-                names.append((name, txt))
+            names.append((name, txt))        # any earlier name, valid or not, may be set again
         pre.append({"op": "hdr", "name": name, "txt": txt, "val": gen_value(rng, sp(), txt)})
     for _ in range(rng.choice([0, 0, 1, 1, 2])):
         txt = rng.random() < 0.4
@@ -169,7 +171,8 @@ def field_scns(rng, maxlen, classes):
         conc = lambda txt=False: [H.member(rng, c, txt) if c not in ("ALPHA",) else 120 for c in symseq]
         tail = [{"op": "write", "data": [104, 105]}, {"op": "finish"}]
         out.append({"cfg": base(), "ops": [{"op": "code", "code": 200, "rs": True, "reason": conc()}] + tail})
-        out.append({"cfg": base(), "ops": [{"op": "hdr", "name": conc(), "txt": False, "val": [118]}] + tail})
+        nm = conc()      # the same name set twice: an invalid name must be refused every time, a valid one overridden
+        out.append({"cfg": base(), "ops": [{"op": "hdr", "name": nm, "txt": False, "val": [118]}, {"op": "hdr", "name": list(nm), "txt": False, "val": [119]}] + tail})
         out.append({"cfg": base(), "ops": [{"op": "hdr", "name": [88, 45, 84], "txt": False, "val": conc()}] + tail})
         ck = lambda k, v, a: {"op": "cookie", "k": k, "v": v, "attrs": a, "secure": False, "httpOnly": False, "sameSite": "", "txt": False}
         out.append({"cfg": base(), "ops": [ck(conc(), [118], [])] + tail})
@@ -303,8 +306,8 @@ def run(ctx):
     if n.ok or n.kind != "invariant":
         raise MachineryError("negative control: OracleRejects not evaluated (%s)" % (n.error or "no violation"))
 
-    classes = ["ALPHA", "LB", "NUL", "CTL", "WS", "OBS", "SEMI", "EQ", "COLON", "COMMA", "DQ", "PUNCT", "TPUNCT", "DIGIT"]
-    scns = field_scns(ctx.rng, ctx.pick(2, 3), classes if not ctx.quick else classes[:8])
+    classes = ["ALPHA", "CR", "LF", "NUL", "CTL", "WS", "OBS", "SEMI", "EQ", "COLON", "COMMA", "DQ", "PUNCT", "TPUNCT", "DIGIT"]
+    scns = field_scns(ctx.rng, ctx.pick(2, 3), classes if not ctx.quick else classes[:9])
     ctx.exhaustive = True
     ctx.extra["exhaustive_rule"] = "every sequence of <= %d octet-class symbols in each of 6 argument positions (reason, header name, header value, cookie key, cookie value, cookie attribute), one position at a time" % ctx.pick(2, 3)
     nfield = len(scns)
